@@ -318,6 +318,12 @@ def run_case(case, strict=False):  # noqa: C901  pylint: disable=too-many-branch
                         if cmd in res:
                             bad("c16_deep_arc_forwarded", "%r (lap %d) from (%r,%r) passes through the centre of %r but was forwarded" % (cmd, lap + 1, sx, sy, reg))
                             break
+                        # ... and suppressed or not, the filter has followed the arc to its end: what comes next starts there
+                        p2 = f2.state.position
+                        gx, gy = p2.X_AXIS.nativeToLogical(), p2.Y_AXIS.nativeToLogical()
+                        if abs(gx - ex) > 1e-6 * max(1.0, abs(ex)) or abs(gy - ey) > 1e-6 * max(1.0, abs(ey)):
+                            bad("c16_end_point", "after the suppressed arc %r the filter stands at (%r,%r), the arc ends at (%r,%r)" % (cmd, gx, gy, ex, ey))
+                            break
                     if not out and int(case["t"] * 1000) % 2 == 0:
                         # a new file is selected (all regions gone), the same arc is printed again: nothing is in its way now
                         f2.state.resetState(True)
